@@ -142,10 +142,26 @@ def judge(run):
 
 def run(tier):
     run = X.ExecRun(PROP, tier)
-    run.add_cases("c08", make_cases(tier))
+    cases = make_cases(tier)
+    # design level: MCExec checks OrderIndependent (lazy outcome unchanged when the two stanzas are swapped) on every enumerated
+    # program; a sample is replayed in both orders
+    import mcexec
+    progs, mstats, t = mcexec.run(tier, "c08_mcexec")
+    rr = A.rng(88)
+    sample = rr.sample(progs, min(len(progs), 120 if tier == "quick" else 6000))
+    for k, p in enumerate(sample):
+        prog = mcexec.strip_locs(p["prog"])
+        for pi, perm in enumerate(([0, 1], [1, 0])):
+            cc = A.case("c08e-%d-lazy~p%d" % (k, pi), json.loads(json.dumps(dict(prog, stanzas=[prog["stanzas"][j] for j in perm]))), t["src"], "lazy")
+            cc["perm"] = perm
+            cases.append(cc)
+    run.add_cases("c08", cases)
+    run.states += mstats["distinct"]
+    run.trans += mstats["states"]
     run.classify_all(panic_only=True)
     stats = judge(run)
-    cov = run.coverage(RULE, {"permutation_groups": stats})
+    cov = run.coverage(RULE, {"permutation_groups": stats, "mcexec": {"programs_enumerated": len(progs), "distinct_states": mstats["distinct"],
+                                                                      "replayed_in_both_orders": len(sample), "exhaustive": True}})
     return run.V.finish("model_checking", cov, X.TRUSTED)
 
 
